@@ -1,6 +1,6 @@
 (* C01 — per-key mutual exclusion.  Statements only; proofs are in PropLemmas.v / StepInv.v. *)
 From Coq Require Import List Arith ZArith.
-From LK Require Import AList Model Inv StepInv PropLemmas Fine.
+From LK Require Import AList Model Inv StepInv PropLemmas Fine Seq DropInv Stream SeqRefine SeqLimit Conc.
 Import ListNotations.
 
 (* In every reachable state of either back-end (c_lru c = true: LockableLruCache, false: LockableHashMap
@@ -46,6 +46,14 @@ Theorem C01_waiter_blocked_while_held : forall c s a sh k g o,
 Proof. intros c s a sh k g o H. exact (held_waiter_blocked c s a sh k g o (reachable_inv c s H)). Qed.
 
 (* non-vacuity: a reachable state with a live guard on an absent key and a failed try *)
+(* "A second acquirer waits until the first guard has been dropped", over whole histories: in every history of the
+   plain map + locked set -- hence, by C05_concurrent_histories_linearise, in the history that explains any
+   interleaving of the model -- two acquisitions of the same key have the release of the first guard between them. *)
+Theorem C01_reacquisition_needs_release : forall sp sh k mid sh' sp' g v os_mid g' v',
+  spec_acts sp (SLock sh k :: mid ++ [SLock sh' k]) = Some (sp', OGuard g k v :: os_mid ++ [OGuard g' k v']) ->
+  In (SDrop g) mid.
+Proof. exact reacquisition_needs_release. Qed.
+
 Example C01_witness :
   run (mkCfg false) [LStart 0 (CLock ShBlocking 1 None); LResume 0 []; LStart 1 (CLock ShTry 1 None);
                      LResume 1 [1]; LResume 1 [1]; LResume 1 [1]]
